@@ -68,11 +68,6 @@ def oracle(p):
 def finding_of(v):
     if v['rule'] == F_IDLE:
         return 'F-C24-1'
-    d = v.get('detail') or {}
-    # F-C24-2: exactly a server reporting a stream-bound ALTSVC on an even stream whose state machine has the client role (F-C08-1)
-    if (v['rule'].startswith('an ALTSVC frame that must be ignored was reported') and d.get('server_on_a_stream_it_opened_itself')
-            and d.get('expected') == [] and len(d.get('events') or []) == 1 and d['events'][0][1] == [] and not d.get('origin')):
-        return 'F-C24-2'
     return None
 
 
@@ -80,7 +75,7 @@ def scenarios(run):
     out = []
     RX = lambda *fs: ('Receive', [(f, None, {}) for f in fs])
     A = lambda origin, sid: ('AdvertiseAltSvc', b'h2=":443"', origin, sid)
-    # F-C24-2: a server that opened stream 4 itself reports the ALTSVC frame it receives on it
+    # fixed 12650a7 (was F-C24-2): a server that tries to open stream 4 itself must not report the ALTSVC frame it receives on it
     out.append((t2.default_cfg(False), [('Initiate',), ('SendHeaders', 4, t2.RESP, 0, False, None, None, None), RX(('AltSvc', 4, b'', b'h2=":8000"'))]))
     for client in (True, False):
         cfg = t2.default_cfg(client)
@@ -99,7 +94,7 @@ def scenarios(run):
     return out
 
 
-SPEC = dict(parts=PARTS, weights=WEIGHTS, rf_weights=RF, n_quick=200, n_thorough=5000, n_ops=28, oracle=oracle, finding_of=finding_of, scenarios=scenarios, extra_obligations=1,
+SPEC = dict(parts=PARTS, weights=WEIGHTS, rf_weights=RF, n_quick=200, n_thorough=5000, n_ops=28, oracle=oracle, finding_of=finding_of, scenarios=scenarios,
             nontrivial=lambda p: any(op[0] == 'AdvertiseAltSvc' or (op[0] == 'Receive' and any(e[0][0] == 'AltSvc' for e in op[1])) for op in p['ops']),
             rule='alt-svc heavy programs: advertise_alternative_service with origin / stream / both / neither on every stream of the zoo and at every point of a message, ALTSVC frames on '
                  'stream 0 and stream-bound, with and without origin, on clients and servers; compared with the model and judged by the RFC 7838 rules; '
@@ -107,9 +102,6 @@ SPEC = dict(parts=PARTS, weights=WEIGHTS, rf_weights=RF, n_quick=200, n_thorough
 
 
 def check(run):
-    from harness import common
-    with common.Lock():
-        common.build(['Properties/C24_refuted.vo'])
     return _conn.conn_check(run, SPEC)
 
 
